@@ -622,7 +622,10 @@ func extractC11(c *Ctx) error {
 	if err := x.extractValidate(names); err != nil {
 		return err
 	}
-	return x.extractBatchGate()
+	if err := x.extractBatchGate(); err != nil {
+		return err
+	}
+	return x.extractKeySites()
 }
 
 // rootIdent returns the identifier at the root of an lvalue / argument expression (x, x.f, *x, &x, x[i], (x)).
